@@ -139,6 +139,19 @@ pub fn gen(prop: &str, seed: u64, index: u64, _tier: Tier) -> Case {
         t.push('\n');
         p.add_file(&path, B(t.into_bytes()));
     }
+    if matches!(variant, "env") && rng.chance(1, 3) {
+        // w/base-common/part.txt.txtpp, included from a source directly in the base directory
+        p.add_dir("w/base-common");
+        p.add_file(
+            "w/base-common/part.txt.txtpp",
+            B::s("begin\n-TXTPP#run pwd\n+TXTPP#run printf '%s\\n' \"$TXTPP_FILE\"\nend\n"),
+        );
+        p.add_file(
+            &join(&base, "uses_part.txt.txtpp"),
+            B::s("begin\n-TXTPP#run pwd\n+TXTPP#run printf '%s\\n' \"$TXTPP_FILE\"\nTXTPP#after ../base-common/part.txt\nend\n"),
+        );
+        params.insert("outside_base".into(), "true".into());
+    }
     params.insert("expect_err".into(), format!("{expect_err}"));
     let mut cfg = RunCfg::simple(ModeS::Build, &base, vec![".".into()], *rng.pick(&gen::KS));
     cfg.recursive = true;
@@ -156,8 +169,10 @@ pub fn gen(prop: &str, seed: u64, index: u64, _tier: Tier) -> Case {
     }
     cfg.shell = match variant {
         "argv" => "printf %s\\n".to_string(),
-        _ => match rng.below(6) {
+        _ => match rng.below(8) {
             0 | 1 => "bash -c".to_string(),
+            // the shell option is split on whitespace: runs of blanks, tabs and a trailing blank
+            6 => (*rng.pick(&["bash  -c", "bash -c ", "bash\t-c", " bash -c"])).to_string(),
             2 => {
                 // a shell given by a path relative to the process working directory
                 let cwd = cfg.cwd.clone().unwrap_or_else(|| base.clone());
